@@ -312,6 +312,8 @@ PROPS['C20'] = {
         thm('EmmetProps.C20_lookup', 'arbitrary dictionaries and layer lists: lookup after merging = value in the most specific present layer that mentions the key; other layers leave it untouched'),
         thm('EmmetProps.C20_options', 'every option key, every user / global config: effective value = most specific of the six documented layers (tables regenerated from config.py)'),
         thm('EmmetProps.C20_snippets', 'same for snippets'), thm('EmmetProps.C20_variables', 'same for variables'),
+        thm('EmmetProps.C20_defaults', 'Config defaults over the REGENERATED tables: no type = markup, no syntax = the default syntax of the type (html / css), unknown type = html'),
+        thm('EmmetProps.C20_silent_layer', 'a layer that is absent or does not mention a key leaves the key untouched, for any layers around it'),
         thm('EmmetProps.C20_unknown_syntax', 'a syntax / type name that is not in SYNTAX_CONFIG contributes an empty built-in layer'),
     ],
     'domains': ['dom_config'],
